@@ -101,7 +101,7 @@ def run(tier, seed):
         cell = gl.cell_from_recip_metric(I["met"], c)
         if I.get("pseudo"):
             cell[1] *= (1 + 4e-8)          # b a hair longer: among exact ties the reflection with the larger |k| now comes first
-        smin, smax = gl.bounds(I["K"], I["Kmin"], c)
+        smin, smax = gl.bounds(I["K"], I["Kmin"], c, tight=0 if (I.get("pseudo") or I.get("long")) else i % 5)
         mod = "tools" if (i % 2 or tier == "thorough") else "laue"
         mods = ["tools", "laue"] if (tier == "thorough" or I.get("long") or I.get("pseudo")) else [mod]
         for m in mods:
